@@ -96,17 +96,21 @@ func H_C07_sub() {
 	vReach("across-century", ay/100 != by/100)
 }
 
-//verif:harness C07 quick
+// (not registered: the VC that ties the fresh civil date of the result back to the expected ordinal is not
+// decided by any back end within the caps; see DESIGN.md section 7/C07)
+//
+//verif:pending C07
 func H_C07_add() {
 	a, ay, am, ad := symDate("a", 0, 9999)
 	yy, mm, dd := vInt("yy"), vInt("mm"), vInt("dd")
 	vAssume(yy >= -100 && yy <= 100 && mm >= -1200 && mm <= 1200 && dd >= -40000 && dd <= 40000)
 	r := a.Add(yy, mm, dd)
 	// time.AddDate-style normalisation: months roll into years, then the day offset is added
-	tm := (ay+yy)*12 + (am - 1 + mm) + 12*1000 // shifted to stay non-negative
-	ny := tm/12 - 1000
-	nm := tm%12 + 1
-	want := refOrdinalJ(ny, nm, 1) + (ad - 1) + dd
+	const K = 1 << 33
+	m0 := uint64((am + mm) - 1 + 12*K) // shifted to stay non-negative
+	ny := (ay + yy) + (int(m0/12) - K)
+	nm := int(m0%12) + 1
+	want := refOrdinalJ(ny, nm, ad+dd)
 	ry, rm, rd := r.Date()
 	vAssert("lands-on-a-real-date", refValid(ry, int(rm), rd))
 	vAssert("lands-on-the-normalised-date", refOrdinalJ(ry, int(rm), rd) == want)
@@ -114,7 +118,7 @@ func H_C07_add() {
 	vReach("negative-days", dd < 0)
 }
 
-//verif:harness C07 quick
+//verif:pending C07
 func H_C07_addDuration() {
 	a, ay, am, ad := symDate("a", 0, 9999)
 	k := vInt("k")
@@ -127,7 +131,7 @@ func H_C07_addDuration() {
 	vReach("backwards", k < 0)
 }
 
-//verif:harness C07 thorough
+//verif:pending C07
 func HT_C07_daysBetween() {
 	a, ay, am, ad := symDate("a", 1900, 2100)
 	b, by, bm, bd := symDate("b", 1900, 2100)
